@@ -11,6 +11,11 @@
 //   script=i,j,...    directed schedule prefix (thread ids; an id that is not schedulable is skipped)
 //   mode=os|pika      logical threads are plain OS threads (default) or pika tasks (own task ids:
 //                     the other branch of stop_state::remove_callback's thread comparison)
+//   cv=detail         (follow-up C07d) one pika::detail::condition_variable used directly with its spinlock,
+//                     ops dwait ; dtwait ; dn1 ; dnall ; abortall  (model=cvabort, Model/CVAbort.lean):
+//                     dwait/dtwait = lock; cond.wait(l) / wait_for(l, 1s); the exception of an aborted
+//                     suspend is caught (note `cv.threw`, logged while the lock is held again), result
+//                     0 signaled / 1 timeout / 2 threw; abortall = lock; cond.abort_all(std::move(l))
 // Thread ops: lock ; unlock ; set v ; n1 ; nall ; wait ; waitp ; twait ; twaitp
 //   swaitp ; stwaitp ; stop
 //                     (condition_variable_any only: wait(lock, stop_token, pred), wait_for(lock, stop_token,
@@ -26,6 +31,7 @@
 
 #include <pika/concurrency/spinlock.hpp>
 #include <pika/synchronization/condition_variable.hpp>
+#include <pika/synchronization/detail/condition_variable.hpp>
 #include <pika/synchronization/stop_token.hpp>
 
 #include <chrono>
@@ -172,6 +178,106 @@ static void run_with(case_t const& c, controller* ctl)
     run_os_threads(*ctl, bodies);
 }
 
+// ---- follow-up C07d: detail::condition_variable with abort_all ----------------------------
+static void body_detail(case_t const& c, int i, pika::detail::condition_variable* cv,
+    pika::concurrency::detail::spinlock* m)
+{
+    using spin = pika::concurrency::detail::spinlock;
+    using rs = pika::threads::detail::thread_restart_state;
+    for (auto const& op : c.threads[i])
+    {
+        try
+        {
+            if (op.name == "dwait" || op.name == "dtwait")
+            {
+                bool tm = op.name == "dtwait";
+                pt(tm ? "inv.dtwait" : "inv.dwait", cv);
+                long long r = 3;
+                {
+                    std::unique_lock<spin> l(*m);
+                    try
+                    {
+                        rs st = tm ? cv->wait_for(l, pika::chrono::steady_duration(std::chrono::seconds(1))) :
+                                     cv->wait(l);
+                        r = st == rs::timeout ? 1 : st == rs::signaled ? 0 : 3;
+                    }
+                    catch (std::exception const&)
+                    {
+                        // suspend threw (restart state abort); the unlock_guard has re-taken the lock and
+                        // ~reset_queue_entry has run: no preemption point since the sl.acq
+                        nt("cv.threw", cv);
+                        r = 2;
+                    }
+                }
+                nt("ret", cv, r);
+            }
+            else if (op.name == "dn1" || op.name == "dnall")
+            {
+                bool all = op.name == "dnall";
+                pt(all ? "inv.dnall" : "inv.dn1", cv);
+                {
+                    std::unique_lock<spin> l(*m);
+                    if (all) cv->notify_all(std::move(l));
+                    else cv->notify_one(std::move(l));
+                }
+                nt("ret", cv, 0);
+            }
+            else if (op.name == "abortall")
+            {
+                pt("inv.abortall", cv);
+                {
+                    std::unique_lock<spin> l(*m);
+                    cv->abort_all(std::move(l));
+                }
+                nt("ret", cv, 0);
+            }
+        }
+        catch (std::exception const& e)
+        {
+            nt("exc", cv);
+        }
+    }
+}
+
+// As verif::run_os_threads, but the agents are never destroyed: abort_all calls ctx.abort() AFTER it has
+// released the internal lock, so the target may already have left its wait and finished (finding
+// abort-after-wait-returned); with the agent on the finished thread's stack that call is a use after
+// scope.  `agents=stack` in the case header selects the ordinary runner (reproduces the crash).
+[[noreturn]] static void run_os_threads_leaky(controller& c, std::vector<std::function<void()>> bodies)
+{
+    g_ctl = &c;
+#if defined(PIKA_VERIF_HOOKS)
+    pika::verif::sink.store(&e1_sink);
+#endif
+    std::vector<std::thread> ts;
+    for (int i = 0; i < c.n; ++i)
+    {
+        ts.emplace_back([&c, i, &bodies] {
+            auto* ag = new verif_agent(i, &c);
+            auto* ra = new pika::execution::this_thread::detail::reset_agent(*ag);
+            (void) ra;
+            c.thread_begin(i);
+            bodies[i]();
+            c.thread_end(i);
+        });
+    }
+    c.start_all();
+    for (;;) pause();
+}
+
+static void run_detail(case_t const& c, controller* ctl)
+{
+    int k = int(c.threads.size());
+    auto* m = new pika::concurrency::detail::spinlock;
+    auto* cv = new pika::detail::condition_variable;
+    ctl->name_obj(m);
+    ctl->name_obj(cv);
+    std::vector<std::function<void()>> bodies;
+    for (int i = 0; i < k; ++i) bodies.push_back([=, &c] { body_detail(c, i, cv, m); });
+    if (c.gets("agents", "heap") == "stack") run_os_threads(*ctl, bodies);
+    run_os_threads_leaky(*ctl, bodies);
+}
+
 // A crash inside the real code (e.g. a use-after-return) would lose the log; print what was logged so
 // far, then die with the original signal so that the runner reports `end crash signal=N`.
 static void crash_dump(int sig)
@@ -207,7 +313,8 @@ static void run_one(case_t const& c)
     std::string cvk = c.gets("cv", "plain");
     std::string lk = c.gets("lock", "user");
     using spin = pika::concurrency::detail::spinlock;
-    if (cvk == "plain")
+    if (cvk == "detail") run_detail(c, ctl);
+    else if (cvk == "plain")
     {
         if (lk == "spin") run_with<pika::condition_variable, spin, std::unique_lock<spin>>(c, ctl);
         else run_with<pika::condition_variable, ulock_t, std::unique_lock<ulock_t>>(c, ctl);
